@@ -7,6 +7,7 @@
 import FsModel.Path
 import FsModel.PathSpec
 import FsProofs.Lemmas.PathLemmas
+import FsProofs.Lemmas.ConfineLemmas
 
 namespace Fs.C12
 open Fs Fs.Path Fs.PathSpec Fs.PathLemmas
@@ -144,14 +145,94 @@ theorem frombase_append (a : Bool) (as bs : List Str) (ha : Clean as) (hb : Clea
   have hpar := (isparent_mkp_iff a as bs ha hb).2 hp
   obtain ⟨t, ht⟩ := mkp_prefix (a := a) hp
   refine ⟨t, ?_, ht⟩
-  simp only [mk_eq_mkp, frombase, hpar, Bool.not_true, Bool.false_eq_true, if_false]
-  rw [← ht, List.drop_left]
+  simp only [mk_eq_mkp]
+  rw [← ht] at hpar ⊢
+  exact frombase_of_append _ _ hpar
 
 theorem frombase_rejects (a : Bool) (as bs : List Str) (ha : Clean as) (hb : Clean bs)
     (hp : ¬ as <+: bs) : frombase (mk a as) (mk a bs) = .err .ValueError := by
   have hpar : isparent (mkp a as) (mkp a bs) = false := by
     rw [Bool.eq_false_iff]; intro h; exact hp ((isparent_mkp_iff a as bs ha hb).1 h)
   simp [mk_eq_mkp, frombase, hpar]
+
+/-- **`frombase` never cuts inside a name** (since 696468c; `frombase("/", "foo")` used to be
+`"oo"`): for any two normalised paths, absolute or relative in any combination, whatever it returns
+consists of exactly the components of `path2` that follow those of `path1`; otherwise it raises. -/
+theorem frombase_whole_components (a b : Bool) (as bs : List Str) (ha : Clean as) (hb : Clean bs)
+    (r : Str) (h : frombase (mk a as) (mk b bs) = .ok r) :
+    as <+: bs ∧ comps r = bs.drop as.length := by
+  simp only [mk_eq_mkp] at h
+  have hpar : isparent (mkp a as) (mkp b bs) = true := by
+    cases hp : isparent (mkp a as) (mkp b bs) with
+    | true => rfl
+    | false => simp [frombase, hp] at h
+  by_cases hab : a = b
+  · subst hab
+    have hp := (isparent_mkp_iff a as bs ha hb).1 hpar
+    refine ⟨hp, ?_⟩
+    obtain ⟨rest, rfl⟩ := hp
+    have hrest : Clean rest := (clean_append.1 hb).2
+    rw [List.drop_left]
+    obtain ⟨t, ht⟩ := mkp_prefix (a := a) (List.prefix_append as rest)
+    rw [← ht] at hpar h
+    rw [frombase_of_append _ _ hpar] at h
+    have hr : r = t := by cases h; rfl
+    subst hr
+    -- `t` is what follows `mkp a as` in `mkp a (as ++ rest)`
+    by_cases h1 : as = []
+    · subst h1
+      have : r = joinWith '/' rest := by
+        have h3 : (if a then ['/'] else []) ++ r = (if a then ['/'] else []) ++ joinWith '/' rest := by
+          simpa [mkp, joinWith] using ht
+        exact List.append_cancel_left h3
+      rw [this]; exact ConfineLemmas.comps_join_clean hrest
+    · by_cases h2 : rest = []
+      · subst h2
+        have : r = [] := by
+          have h3 : mkp a as ++ r = mkp a as ++ [] := by rw [ht, List.append_nil, List.append_nil]
+          exact List.append_cancel_left h3
+        rw [this]; decide
+      · have : r = '/' :: joinWith '/' rest := by
+          have := ht
+          rw [mkp, mkp, joinWith_append _ _ _ h1 h2, ← List.append_assoc] at this
+          exact List.append_cancel_left this
+        rw [this, show '/' :: joinWith '/' rest = [] ++ '/' :: joinWith '/' rest from rfl,
+          ConfineLemmas.comps_append_sep, ConfineLemmas.comps_join_clean hrest]
+        rfl
+  · have hnil := (isparent_mkp_mixed a b as bs ha hb hab).1 hpar
+    subst hnil
+    refine ⟨List.nil_prefix, ?_⟩
+    simp only [List.length_nil, List.drop_zero]
+    cases a <;> cases b
+    · exact absurd rfl hab
+    · -- path1 = "", path2 absolute
+      have hs : startsWith (mkp true bs) (mkp false []) = true := by
+        cases hm : mkp true bs <;> rfl
+      have : frombase (mkp false []) (mkp true bs) = .ok (mkp true bs) := by
+        simp only [frombase, hpar, hs, Bool.not_true, Bool.false_eq_true, if_false]
+        rfl
+      rw [this] at h; cases h
+      exact ConfineLemmas.comps_mkp hb
+    · -- path1 = "/", path2 relative
+      have hs : startsWith (mkp false bs) (mkp true []) = false := by
+        have := startsWithSlash_mkp (a := false) hb
+        cases hm : mkp false bs with
+        | nil => rfl
+        | cons c cs =>
+          rw [hm, startsWithSlash_cons] at this
+          have hc : (c == '/') = false := by simpa using this
+          show (c == '/' && startsWith cs []) = false
+          rw [hc]; rfl
+      have : frombase (mkp true []) (mkp false bs) = .ok (mkp false bs) := by
+        simp only [frombase, hpar, hs, Bool.not_true, Bool.not_false, Bool.false_eq_true, if_false, if_true]
+        have : rstripSlash (mkp true []) = [] := by decide
+        rw [this]; rfl
+      rw [this] at h; cases h
+      exact ConfineLemmas.comps_mkp hb
+    · exact absurd rfl hab
+
+example : frombase "/".toList "foo".toList = .ok "foo".toList := by decide
+example : frombase "foo".toList "/foo/bar".toList = .err .ValueError := by decide
 
 theorem relativefrom_resolves (a b : Bool) (as bs : List Str) (ha : Clean as) (hb : Clean bs) :
     ∃ r, relativefrom (mk a as) (mk b bs) = .ok r ∧ resolve (as ++ splitSlash r) = some bs := by
